@@ -254,9 +254,9 @@ func runC20(c *core.Ctx) {
 	c.ExhaustNote = fmt.Sprintf("all paths of length <= %d over 4 names (incl. empty, quotes, non-ASCII) and 4 indices (incl. negative and 2^53+1)", maxLen)
 
 	// ---- error-biased streams at every entry point
-	n := 3000
+	n := 20000
 	if !c.Quick {
-		n = 60000
+		n = 300000
 	}
 	// lexing + both parsers, with and without limits
 	inputs := make([]string, n)
